@@ -55,9 +55,15 @@ def build_program(form, o, i, n, names, uva, uvk, partial, emulate):
     ca = call_args(n, names, fwd_va, fwd_vk)
     if form == 'function':
         body = 'functools.partial(inner, %s)' % ca if partial else 'inner(%s)' % ca
-        src = ('import functools\nfrom sigtools.specifiers import *\n'
+        # every third program: the wrapper already carries a __signature__ of its own (put there by
+        # modifiers.annotate) when the forger is declared
+        named = [p for p in o['params'] if p[1] in ('PO', 'PK', 'KO')]
+        ann = ''
+        if named and (n + len(names) + int(uva) + 2 * int(uvk)) % 3 == 0:
+            ann = '@sigtools.modifiers.annotate(%s=int)\n' % name_of(named[0][0])
+        src = ('import functools\nimport sigtools.modifiers\nfrom sigtools.specifiers import *\n'
                'def inner(%s):\n    return None\n'
-               '@forwards_to_function(%s)\n'
+               '@forwards_to_function(%s)\n' + ann +
                'def wrapper(%s):\n    return %s\n') % (
             params_src(i), deco_args(n, names, uva, uvk, partial, emulate, 'inner'), params_src(o), body)
         return src, lambda ns: {'wrapper': ns['wrapper']}
